@@ -35,6 +35,7 @@ case "$ID" in
   C08) TARGETS="server_start" ;;
   C10|C11) TARGETS="decoders" ;;
   C12) TARGETS="decoders server_start" ;;
+  C13) TARGETS="decoders history" ;;
   *) exit 0 ;;
 esac
 EV="$HERE/evidence/$ID.json"
